@@ -431,6 +431,11 @@ func (zp *ZoneParser) Next() (RR, bool) {
 				return zp.setParseError("garbage after $INCLUDE", l)
 			}
 
+			// The directive may have ended because reading it failed.
+			if zp.c.Err() != nil {
+				return nil, false
+			}
+
 			if !zp.includeAllowed {
 				return zp.setParseError("$INCLUDE directive not allowed", l)
 			}
@@ -669,6 +674,12 @@ func (zp *ZoneParser) Next() (RR, bool) {
 					return zp.setParseError(err.err, err.lex)
 				}
 
+				// The input may have ended here because reading it failed:
+				// Err reports that, the record cut short is not handed out.
+				if zp.c.Err() != nil {
+					return nil, false
+				}
+
 				return rr, true
 			} else if l.value == zNewline {
 				return zp.setParseError("unexpected newline", l)
@@ -697,6 +708,13 @@ func (zp *ZoneParser) Next() (RR, bool) {
 			// it consumes; a lexer error must not get lost with them.
 			if zp.c.l.err {
 				return zp.setParseError(zp.c.l.token, zp.c.l)
+			}
+
+			// A read error (or, inside $GENERATE, a bad modifier) ends the
+			// token stream like the end of the input does: Err reports it,
+			// the record whose RDATA it cut short is not handed out.
+			if zp.c.Err() != nil {
+				return nil, false
 			}
 
 			if parseAsRFC3597 {
